@@ -298,6 +298,25 @@ pub fn check_loc(r: &mut Recorder, input: &[u8], exp: &Value) {
     }
 }
 
+/// the step model of the parser as implemented (ImplParser.tla) predicts the EXACT outcome, also
+/// where the properties leave a choice.  A difference here is behaviour drift, not a violation:
+/// it is attributed to no property and only counted.
+pub fn check_impl(r: &mut Recorder, input: &[u8], exp: &Value) {
+    r.stat("impl_model_cases");
+    let got = guard(|| Locale::from_bytes(input));
+    let same = match &got {
+        Ok(Ok(l)) => exp["ok"] == json!(true) && proj_loc(l) == exp["val"] && b(&l.to_string()) == exp["ser"],
+        Ok(Err(_)) => exp["ok"] == json!(false),
+        Err(_) => false,
+    };
+    if same {
+        r.stat("impl_model_agree");
+    } else {
+        r.dis(&["IMPL-MODEL"], "behaviour-differs-from-step-model", det(input, exp.clone(),
+              json!(format!("{:?}", got.map(|x| x.map(|l| l.to_string()).map_err(|e| format!("{:?}", e)))))));
+    }
+}
+
 /// extension-map case: the tokens are the text handed to ExtensionsMap::from_bytes
 pub fn check_ext(r: &mut Recorder, input: &[u8], exp: &Value) {
     let zone = exp["zone"].as_str().unwrap_or("?");
@@ -778,6 +797,9 @@ pub fn dispatch(r: &mut Recorder, c: &Value) {
             }
             if let Some(ext) = c.get("ext") {
                 check_ext(r, &input, ext);
+            }
+            if let Some(im) = c.get("impl") {
+                check_impl(r, &input, im);
             }
             #[cfg(feature = "serde")]
             if let Some(li) = c.get("li") {
